@@ -7,6 +7,7 @@ import SdJwt.Lemmas.Example
 import SdJwt.Lemmas.IssuedPaths
 import SdJwt.Lemmas.Defined
 import SdJwt.Lemmas.CodecL
+import SdJwt.Lemmas.TextCodec
 /-!
 # C01 — issuance round trip returns exactly the original claims and their paths
 
@@ -375,3 +376,39 @@ theorem C01_end_to_end_bytes (c : Codec) (salt : Nat → String)
       (ps.map (fun e => (e.1, e.2.digest))).Perm (Tn.paths "") :=
   holder_verify_issued_wire c salt decodeClaims jwtDecode kbDecode paths addr ms Tn ds decoys cnf jwt
     header strs wf hplain hk1 hk2 hp h hne hdec hX hsig hc hperm hnd hj
+
+
+/-- **C01 with the JSON text in the model too.** `C01_end_to_end_bytes` for the codec whose JSON
+text is `JText.render` (compact text as `serde_json` writes it: `Impl/JsonText.lean`) read back by
+`JText.parseAll`: the assumption "the reader reads back what the printer wrote" is discharged by
+`JText.parseAll_render`, so nothing is assumed of JSON text, UTF-8 or base64url any more. What is
+still assumed: the digests of the strings are pairwise different (`hnd`: SHA-2 and fresh salts), the
+JWT library returns what was signed (`hsig`) and the JWT holds no `~` (`hj`). -/
+theorem C01_end_to_end_text (sha : String → List UInt8 → List UInt8) (salt : Nat → String)
+    (decodeClaims : String → Option J) (jwtDecode : String → Outcome (J × J))
+    (kbDecode : String → J → Outcome (J × J))
+    (paths : List String) (addr : List (List String × String)) (ms : MMems) (Tn : MJ)
+    (ds : List SDisc) (decoys : Option (List String)) (cnf : Option MJ) (jwt : String) (header : J)
+    (strs : List String)
+    (wf : (MJ.obj ms none).WF) (hplain : (MJ.obj ms none).digests = [])
+    (hk1 : "_sd_alg" ∉ ms.keys) (hk2 : "cnf" ∉ ms.keys)
+    (hp : ParsedAll paths addr)
+    (h : markAll ((textCodec sha).digestFn "sha-256" salt) 0 addr (.obj ms none) = some (Tn, ds)) (hne : ds ≠ [])
+    (hdec : ∀ l, decoys = some l → l.Nodup ∧ (∀ g ∈ l, g ∉ Tn.digests))
+    (hX : ∀ X, cnf = some X → X.WF ∧ X.digests = [])
+    (hsig : ∀ payload dsrc,
+      encode (MJ.obj ms none).payload paths ((textCodec sha).digestFn "sha-256" salt) decoys (cnf.map (·.payload)) =
+        .ok (payload, dsrc) → jwtDecode jwt = .ok (header, payload))
+    (hperm : strs.Perm ((textCodec sha).wireStrs salt 0 ds))
+    (hnd : (strs.map ((textCodec sha).hash "sha-256")).Nodup)
+    (hj : '~' ∉ jwt.toList) :
+    ∃ ps, Holder.verify ((textCodec sha).rt decodeClaims jwtDecode kbDecode) (assemble jwt strs) =
+        .ok (header, expectedClaims ms cnf, ps) ∧
+      (ps.map (fun e => (e.1, e.2.digest))).Perm (Tn.paths "") :=
+  holder_verify_issued_wire (textCodec sha) salt decodeClaims jwtDecode kbDecode paths addr ms Tn ds decoys
+    cnf jwt header strs wf hplain hk1 hk2 hp h hne hdec hX hsig (textCodec_roundtrip sha) hperm hnd hj
+
+/-- the hypothesis `hc` of `C01_end_to_end_bytes` / `C02_redact_bytes` is satisfiable: a codec whose
+reader reads back what its printer wrote exists, for every hash function -/
+example (sha : String → List UInt8 → List UInt8) : ∃ c : Codec, c.sha = sha ∧ ∀ j, c.parse (c.render j) = some j :=
+  ⟨textCodec sha, rfl, textCodec_roundtrip sha⟩
